@@ -347,6 +347,7 @@ def run(ctx):
                     if res is not None:
                         nonnull = check_result(ctx, text, res[0], res[1], mon, case)
                         ctx.case((text, 'postings'), nonnull > 0)
+    special_forms(ctx, mon, conn, tabs, cases)
     ledger_columns(ctx, mon)
     if ctx.shard % 4 == 1 or not ctx.quick:
         subquery_histories(ctx, mon)
@@ -357,6 +358,74 @@ def run(ctx):
 
 
 run.last = 0
+
+
+def special_forms(ctx, mon, conn, tabs, cases):
+    """Forms the compiler types by special rules instead of an overload look-up (coalesce, NULL literals, placeholders
+    bound to None or to a value, subscripts) and registry forms with one operand replaced by NULL: most of these are
+    rejected -- whatever is accepted has to keep its announced datatype."""
+    pools = value_pools()
+    types = list(pools)
+    stmts = []      # (text, params, label)
+    for a in types:
+        stmts.append((f'SELECT coalesce(c_{a}) AS r FROM #v', None, 'coalesce/1'))
+        stmts.append((f'SELECT coalesce(c_{a}, NULL) AS r FROM #v', None, 'coalesce/null-last'))
+        stmts.append((f'SELECT coalesce(NULL, c_{a}) AS r FROM #v', None, 'coalesce/null-first'))
+        stmts.append((f'SELECT coalesce(c_{a}, NULL, d_{a}) AS r FROM #v', None, 'coalesce/null-middle'))
+        stmts.append((f'SELECT coalesce(c_{a}, d_{a}, NULL) AS r FROM #v', None, 'coalesce/null-last'))
+        stmts.append((f'SELECT coalesce(c_{a}, %s) AS r FROM #v', (None,), 'coalesce/param-none'))
+        stmts.append((f'SELECT coalesce(%s, c_{a}) AS r FROM #v', (None,), 'coalesce/param-none'))
+        stmts.append((f'SELECT coalesce(c_{a}, %(x)s, %(x)s) AS r FROM #v', {'x': None}, 'coalesce/param-none'))
+        for v in pools[a][:2]:
+            stmts.append(('SELECT %s AS r FROM #v', (v,), 'param/value'))
+            stmts.append((f'SELECT coalesce(c_{a}, %s) AS r FROM #v', (v,), 'coalesce/param-value'))
+            stmts.append((f'SELECT coalesce(%s, c_{a}) AS r FROM #v', (v,), 'coalesce/param-value'))
+        for b in types:
+            if a != b:
+                stmts.append((f'SELECT coalesce(c_{a}, d_{b}) AS r FROM #v', None, 'coalesce/mixed'))
+                if ctx.tier != 'quick' or (types.index(a) + types.index(b)) % 3 == 0:
+                    stmts.append((f'SELECT coalesce(c_{a}, d_{b}, NULL) AS r FROM #v', None, 'coalesce/mixed'))
+                    stmts.append((f'SELECT coalesce(c_{a}, %s) AS r FROM #v', (pools[b][0],), 'coalesce/param-mixed'))
+    stmts.append(('SELECT NULL AS r FROM #v', None, 'null'))
+    stmts.append(('SELECT %s AS r FROM #v', (None,), 'param/none'))
+    stmts.append(('SELECT coalesce(NULL, NULL) AS r FROM #v', None, 'coalesce/null'))
+    stmts.append(('SELECT c_dict["a"] AS r, c_dict["nope"] AS q FROM #v', None, 'subscript'))
+    # registry forms with one operand replaced by NULL / a None placeholder
+    for label, tmpl, combo, is_agg in cases:
+        if tmpl is None or not combo:
+            continue
+        for pos in range(len(combo)):
+            ops = [(f'c_{t}' if i % 2 == 0 else f'd_{t}') for i, t in enumerate(combo)]
+            ops[pos] = 'NULL'
+            stmts.append((f'SELECT {tmpl.format(*ops)} AS r FROM #v', None, 'registry/null-operand'))
+            if len(combo) > 1:
+                ops[pos] = '%s'
+                stmts.append((f'SELECT {tmpl.format(*ops)} AS r FROM #v', (None,), 'registry/none-param-operand'))
+    for idx, (text, params, label) in enumerate(stmts):
+        if not ctx.mine(idx):
+            continue
+        if ctx.out_of_time():
+            break
+        vt, rows = tabs[idx % len(tabs)]
+        conn.tables['v'] = vt
+        case = {'statement': text, 'params': repr(params), 'form': label, 'hashable_values': True}
+        res = execute(ctx, conn, text, mon, case, params=params)
+        ctx.count(f'special.{label}.' + ('accepted' if res is not None else 'rejected_or_excluded'))
+        if res is None:
+            ctx.case((text, repr(params)), False)
+            continue
+        nonnull = check_result(ctx, text + (f'  % {params!r}' if params is not None else ''), res[0], res[1], mon, case)
+        ctx.case((text, repr(params), idx % len(tabs)), nonnull > 0)
+        ctx.count('obs.special_form_cells', sum(len(r) for r in res[1]))
+        # the same column seen through a sub-query keeps its announced datatype
+        if idx % 5 == 0 and params is None:
+            inner = text
+            outer = f'SELECT r FROM ({inner})'
+            res2 = execute(ctx, conn, outer, mon, {'statement': outer, 'form': label + '/nested', 'hashable_values': True})
+            if res2 is not None:
+                check_result(ctx, outer, res2[0], res2[1], mon, case)
+                if res2[0][0].datatype is not res[0][0].datatype:
+                    ctx.violation('c04.subquery_changes_datatype', f'{outer}: announced {res2[0][0].datatype} but the inner statement announces {res[0][0].datatype}', case)
 
 
 def struct_chains(dtype, depth):
@@ -530,6 +599,8 @@ def finalize(merged):
     merged['extra']['overloads_not_constructible'] = sorted(nc)
     if len(ex) + len(nc) < c.get('registry.instantiations', 1):
         reasons.append(f"registry sweep incomplete: {len(ex) + len(nc)}/{c.get('registry.instantiations')}")
+    if c.get('obs.special_form_cells', 0) == 0:
+        reasons.append('special forms part observed no cell')
     if c.get('obs.node_evaluations', 0) == 0:
         reasons.append('node evaluation hook never fired')
     if c.get('obs.testsuite_node_evaluations', 0) == 0:
